@@ -76,6 +76,23 @@ check('C04', TV,
       'SMT (z3) equivalence of real completion vs reference completion; solver-decided stable-model link on a finite structure',
       'DESIGN.md 5 (C04)')
 
+check('C03', TV,
+      'For every enumerated pair of programs and each of the 48 configurations the real StrongEquivalenceTask is decomposed '
+      'and z3 decides, over ALL classical interpretations of the h/t copies (H need not be a subset of T), that an '
+      'interpretation refutes an emitted forward (backward) problem iff H<=T and <H,T> satisfies the left (right) program '
+      'but not the other under the reference mini-gringo semantics.',
+      BASE_NOTE, 'SMT (z3) equivalence of the refutation condition of the real problems vs reference HT semantics of the two programs',
+      'DESIGN.md 5 (C03)')
+check('C02', TV,
+      'For every task of the corpus and each of the 24 configurations the real ExternalEquivalenceTask is decomposed and z3 '
+      'decides, over ALL interpretations of input, output and private predicates and all placeholder values, that an '
+      'interpretation refutes an emitted problem of a direction iff it satisfies the premises and falsifies a conclusion of '
+      'an independent reference model of external equivalence (completions built from the rules with the reference term '
+      'semantics; private predicates of the two sides kept apart).',
+      BASE_NOTE + ' Reference model: av/refext.py. The completion-to-stable-model link is C04; large repo examples may stay unknown.',
+      'SMT (z3) equivalence of the refutation condition of the real problems vs a reference model of external equivalence',
+      'DESIGN.md 5 (C02)')
+
 NOT_APPLICABLE = [
     ('C10', 'thread pool + process spawning + regex over prover output: no symbolic reach for Kani/CBMC (no concurrency/process model) and nothing for an SMT encoding to carry; see DESIGN.md 6'),
     ('C11', 'graph algorithms over HashMap/petgraph/IndexSet on concrete programs: nothing left for a solver to quantify over, and symbolic programs are out of reach (DESIGN.md 1.1, 6)'),
